@@ -1,7 +1,7 @@
 (* C04 -- property theorems: score -> MIDI -> score.  Statements + `exact` only; proofs are in
    Proofs/C04.v.  All definitions are those of Model/C04.v, the model the correspondence of
    harness/props/c04.py evaluates against save_score_midi / load_score_midi on every run. *)
-From PV Require Import Lib.Base Lib.Round Model.C04 Proofs.C04 Proofs.C04_nonneg.
+From PV Require Import Lib.Base Lib.Round Model.C04 Model.C04_stream Proofs.C04 Proofs.C04_nonneg Proofs.C04_stream.
 From Coq Require Import QArith Permutation.
 #[local] Open Scope Z_scope.
 
@@ -141,3 +141,134 @@ Theorem ticks_example :
   part_wf p /\ (anac p == 1)%Q /\ tick 12 (ftp 0 [p]) p 7 = 28 /\ tick 12 (ftp 2 [p]) p 7 = 64.
 Proof. exact part_wf_example. Qed.
 Print Assumptions ticks_example.
+
+(* ---------------------------------------------------------------------------------------------
+   Model/C04_stream.v: tied chains, the message SEQUENCE of a written track, its reading. *)
+
+(* "tied notes merged": following tie_next from a Note object through a chain l of objects that abut,
+   duration_tied is the sum of the durations and the written note ends where the last object ends
+   (the fuel of the model's recursion never runs out on a chain not longer than the fuel) *)
+Theorem tied_chain_merged : forall pcs i l fuel,
+  tie_path pcs i l -> abutting l -> (List.length l <= fuel)%nat ->
+  exists r, dur_tied fuel pcs i = Some r /\ r = sum_durs l /\ chain_start l + r = chain_end l.
+Proof. exact Proofs.C04_stream.tied_chain_merged. Qed.
+Print Assumptions tied_chain_merged.
+
+(* notes_tied has one entry per Note object without tie_prev *)
+Theorem tied_notes_are_the_heads : forall pcs out, tied_notes pcs = Some out ->
+  List.length out = List.length (filter (fun pc => negb (pc_has_prev pc)) pcs).
+Proof. intros pcs out. exact (tied_from_heads pcs pcs 0 out). Qed.
+Print Assumptions tied_notes_are_the_heads.
+
+Theorem tied_example :
+  let pcs := [(0, 3, 60, 1, false, Some 2); (0, 0, 64, 1, false, None); (3, 12, 60, 1, true, Some 4);
+              (5, 2, 67, 2, false, None); (15, 5, 60, 1, true, None)] in
+  tie_path pcs 0 [(0, 3, 60, 1, false, Some 2); (3, 12, 60, 1, true, Some 4); (15, 5, 60, 1, true, None)] /\
+  tied_notes pcs = Some [(0, 20, 60, 1); (0, 0, 64, 1); (5, 2, 67, 2)].
+Proof. exact Proofs.C04_stream.tied_example. Qed.
+Print Assumptions tied_example.
+
+(* O3, the exporter's half: the sequence save_score_midi writes for the notes N of a track (ticks
+   ascending and distinct; per tick the signatures/tempi, the note offs, the zero-length notes as
+   on/off pairs, the note ons) is read back by the importer's pairing loop as exactly N, whenever
+   no two notes of one (channel, pitch) key overlap (zero-length notes may touch either end of a
+   note and each other) -- for all N, all metas, every positive velocity *)
+Theorem export_sequence_read_back : forall vel metas N,
+  0 < vel -> (forall m, In m metas -> is_note_msg m = false) ->
+  (forall n, In n N -> 0 <= n_dur n) -> no_overlap N ->
+  Permutation (pair_notes no_open (stream vel metas N)) N.
+Proof. exact stream_pairs. Qed.
+Print Assumptions export_sequence_read_back.
+
+(* the same through the whole model of save_score_midi, delta coding included, for each track, mode,
+   anacrusis behaviour: qd_sorted = positive quarter durations at increasing times, notes_fwd = no
+   negative duration_tied, parts_ok/bar_ok as in tick_integral_and_exact *)
+Theorem score_track_roundtrip : forall mode vel an ppq ps i,
+  0 < vel -> 0 <= ppq -> parts_ok ppq ps -> (forall p, In p ps -> bar_ok ppq p) ->
+  (forall p, In p ps -> qd_sorted (p_qd p) /\ notes_fwd p) ->
+  no_overlap (track_notes mode an ppq ps i) ->
+  Permutation (pair_notes no_open (absolute (to_delta 0 (model_stream mode vel an ppq ps i))))
+              (track_notes mode an ppq ps i).
+Proof. exact Proofs.C04_stream.score_track_roundtrip. Qed.
+Print Assumptions score_track_roundtrip.
+
+(* the tick conversion is monotone: no note is written with its note off before its note on *)
+Theorem tick_monotone : forall ppq an ps p t t',
+  0 <= ppq -> parts_ok ppq ps -> (forall p, In p ps -> bar_ok ppq p) -> In p ps ->
+  qd_sorted (p_qd p) -> t <= t' -> tick ppq (ftp an ps) p t <= tick ppq (ftp an ps) p t'.
+Proof. exact tick_mono. Qed.
+Print Assumptions tick_monotone.
+
+(* delta coding of a message sequence is inverted by the importer's running time, for every sequence;
+   the written sequence is in tick order, so its delta times are non-negative *)
+Theorem sequence_delta_inverted : forall ms a, abs_from a (to_delta a ms) = ms.
+Proof. exact abs_to_delta. Qed.
+Print Assumptions sequence_delta_inverted.
+
+Theorem sequence_deltas_nonneg : forall vel metas N,
+  (forall x, In x (map m_time metas ++ note_ticks N) -> 0 <= x) ->
+  Forall (fun d => 0 <= d) (map m_time (to_delta 0 (stream vel metas N))).
+Proof. exact stream_deltas_nonneg. Qed.
+Print Assumptions sequence_deltas_nonneg.
+
+(* the requested velocity is used by every note_on, zero-length notes included *)
+Theorem velocity_used : forall vel metas N m,
+  (forall x, In x metas -> m_kind x <> 1) ->
+  In m (stream vel metas N) -> m_kind m = 1 -> let '(_, _, _, _, v) := m in v = vel.
+Proof. exact Proofs.C04_stream.velocity_used. Qed.
+Print Assumptions velocity_used.
+
+Theorem stream_example :
+  let N := [(1, 4, 60, 2); (1, 0, 60, 4); (1, 4, 60, 0); (1, 0, 64, 6)] in
+  let metas := [(0, 4, 500000, 0, 0); (4, 3, 2, 0, 0)] in
+  no_overlap N /\
+  stream 30 metas N =
+    [(0, 4, 500000, 0, 0); (0, 1, 1, 60, 30); (0, 1, 1, 64, 30);
+     (4, 3, 2, 0, 0); (4, 0, 1, 60, 0); (4, 1, 1, 60, 30); (4, 0, 1, 60, 0); (4, 1, 1, 60, 30);
+     (6, 0, 1, 60, 0); (6, 0, 1, 64, 0)] /\
+  pair_notes no_open (absolute (to_delta 0 (stream 30 metas N))) =
+    [(1, 0, 60, 4); (1, 4, 60, 0); (1, 4, 60, 2); (1, 0, 64, 6)].
+Proof. exact Proofs.C04_stream.stream_example. Qed.
+Print Assumptions stream_example.
+
+(* O4, "key and time signatures appear at the same musical positions" -- the exporter's half: a key
+   signature at timeline time t of a part is in the written (delta-coded) sequence of every track holding
+   notes of that part (k: any note key of the part), at the tick of t; likewise every time signature
+   under "shift" *)
+Theorem keysig_written : forall mode vel an ppq ps p t code k,
+  In p ps -> In (t, code) (p_ksigs p) -> In k (all_keys ps) -> k_part k = p_id p ->
+  In (tick ppq (ftp an ps) p t, code, 0)
+     (track_sigs 3 (to_delta 0 (model_stream mode vel an ppq ps (fst (track_channel mode (all_keys ps) k))))).
+Proof. exact Proofs.C04_stream.keysig_written. Qed.
+Print Assumptions keysig_written.
+
+Theorem timesig_written_shift : forall mode vel ppq ps p t b bt k,
+  In p ps -> In (t, b, bt) (p_tsigs p) -> In k (all_keys ps) -> k_part k = p_id p ->
+  In (tick ppq (ftp 0 ps) p t, b, bt)
+     (track_sigs 2 (to_delta 0 (model_stream mode vel 0 ppq ps (fst (track_channel mode (all_keys ps) k))))).
+Proof. exact Proofs.C04_stream.timesig_written_shift. Qed.
+Print Assumptions timesig_written_shift.
+
+(* the importer's half (make_track_to_part_mapping): an imported part has a key signature iff it holds the
+   notes of some channel of a track carrying it, or the signature stands in a track without any note *)
+Theorem import_keysigs_spec : forall mode trs prt sg,
+  In (prt, sg) (import_sigs mode 3 trs) <->
+  (exists i tr ch, In (i, tr) (indexed 0 trs) /\ In sg (track_sigs 3 tr) /\
+                   In (i, ch) (tcs_of trs) /\ gpv_part mode (tcs_of trs) (i, ch) = prt)
+  \/ (exists i tr ch', In (i, tr) (indexed 0 trs) /\ In sg (track_sigs 3 tr) /\ ~ track_sounds trs i /\
+                       In ch' (tcs_of trs) /\ gpv_part mode (tcs_of trs) ch' = prt).
+Proof. exact Proofs.C04_stream.import_keysigs_spec. Qed.
+Print Assumptions import_keysigs_spec.
+
+(* all tracks at once: the importer's reading (import_tracks: running time + sounding-note table, per
+   track) of the file the model of save_score_midi writes is, track by track, exactly the notes the
+   exporter put there, for every mode, anacrusis behaviour and velocity *)
+Theorem score_file_roundtrip : forall mode vel an ppq ps,
+  0 < vel -> 0 <= ppq -> parts_ok ppq ps -> (forall p, In p ps -> bar_ok ppq p) ->
+  (forall p, In p ps -> qd_sorted (p_qd p) /\ notes_fwd p) ->
+  (forall i, no_overlap (track_notes mode an ppq ps i)) ->
+  Permutation (import_tracks 0 (model_file mode vel an ppq ps))
+              (flat_map (fun i => map (fun n => (i, n)) (track_notes mode an ppq ps i))
+                        (zrange 0 (Z.to_nat (n_tracks mode ps)))).
+Proof. exact Proofs.C04_stream.score_file_roundtrip. Qed.
+Print Assumptions score_file_roundtrip.
